@@ -209,3 +209,32 @@ func (g *fxGateBadH3) Close() error {
 	close(g.pipe)
 	return nil
 }
+
+// ---- G3 ---------------------------------------------------------------------------------------------------------------
+
+type g3rec struct{ arrived bool }
+
+type g3hist struct {
+	bySeq map[uint16]uint64
+	recs  map[uint64]*g3rec
+}
+
+func (h *g3hist) mark(c uint64) {
+	if r, ok := h.recs[c]; ok {
+		r.arrived = true
+	}
+}
+
+// GoodG3Ack ignores acknowledgements for unknown sequence numbers.
+func (h *g3hist) GoodG3Ack(seq uint16) {
+	c, ok := h.bySeq[seq]
+	if !ok {
+		return
+	}
+	h.mark(c)
+}
+
+// BadG3Ack attributes an unknown sequence number to record 0.
+func (h *g3hist) BadG3Ack(seq uint16) {
+	h.mark(h.bySeq[seq])
+}
